@@ -35,6 +35,7 @@ type Ctx struct {
 	cellStores   map[*ssa.Alloc][]*ssa.Store          // alloc -> every store whose address resolves to it
 	reachCache   map[*ssa.UnOp]*ssa.Store             // load of a multi-store cell -> the one store it sees
 	immutCache   map[string]bool
+	wholeCopyOf  map[*ssa.Alloc]ssa.Value // a local struct that starts as a whole copy of *value (R-C20-1)
 	implCache    map[string]*ssa.Function
 	immutMutable map[string]bool
 	Files        []string
@@ -953,6 +954,22 @@ func ReachableFromBlock(f *ssa.Function, blk *ssa.BasicBlock, q PathQ) map[ssa.I
 	for in := range ReachableInstrs(f, first, q) {
 		out[in] = true
 	}
+	return out
+}
+
+// ReachableViaEdge: the instructions on paths that start at the function's entry and have taken the edge e, from
+// that edge on; q restricts the part after the edge. What a path established before the edge is known after it.
+func ReachableViaEdge(f *ssa.Function, e ifEdge, q PathQ) map[ssa.Instruction]bool {
+	out := map[ssa.Instruction]bool{}
+	q2 := q
+	q2.MustEdge = &e
+	canReachFrom(f, nil, nil, -1, func(in ssa.Instruction) bool {
+		if q.BlockInstr != nil && q.BlockInstr(in) {
+			return false
+		}
+		out[in] = true
+		return false
+	}, q2)
 	return out
 }
 
